@@ -4,6 +4,7 @@
 A *tree* is an expression template over 32-bit values:
     ('leaf', v, ty)                 v a signed 32-bit value; ty 'i' (integer) or 'b' (truth value, v in {0,1})
     ('neg', t) ('not', t) ('bin', op, l, r)        op in + - = ~= < <= > >= and or
+    ('eff', t)                      tick(t): a call of a function that counts its calls in a global and returns t
 The operands of and/or/~ are truth-valued trees (the property's quantifier), everything else takes integers
 (truth values are the integers 0/1 in X).
 
@@ -18,7 +19,14 @@ A *variant* of a tree fixes, per leaf (in-order), a mode:
 The *reference variant* has every leaf in a variable; a *pair* is (some variant, reference variant) of the same tree
 in the same context.  The two programs of a pair must behave identically.
 
-Contexts (where the expression sits): assign, exit, ifc, whilec, actual, ret, sub.
+Contexts (where the expression sits): assign, exit, ifc, whilec, actual, ret, sub;
+  ifv / whilev            the expression (any integer) is the condition of an if with two observable branches / of a while
+                          whose body leaves the program;
+  callrep/<pattern>/..    one actual among equal constants K;
+  arr/<shape>/<r|w>/<g|f>/<t>/<lit|val>/<J>
+                          the expression e is part of an array index of the given shape over constants K (computed so that
+                          the index is t) and J: K-e, e-K, K+e, e+K, K-(e-J), (K-e)+J, J+(e-K), (e+J)-K; the element is read
+                          or assigned; the array is global or an array formal.
 """
 import itertools
 
@@ -33,7 +41,10 @@ LOGIC = ('and', 'or')
 BINOPS = ARITH + REL + LOGIC
 BOOL_OPS = REL + LOGIC + ('not',)
 ALL_OPS = BINOPS + ('neg', 'not')
-CONTEXTS = ('assign', 'exit', 'ifc', 'whilec', 'actual', 'ret', 'sub')
+UNARY = ('neg', 'not', 'eff')
+CONTEXTS = ('assign', 'exit', 'ifc', 'whilec', 'actual', 'ret', 'sub', 'ifv', 'whilev')
+ARR_SHAPES = ('K-e', 'e-K', 'K+e', 'e+K', 'K-(e-J)', '(K-e)+J', 'J+(e-K)', '(e+J)-K')
+ARR_N = 16
 
 
 def wrap(z):
@@ -57,7 +68,7 @@ def leaf(v, ty='i'):
 def leaves(t):
     if t[0] == 'leaf':
         return [t]
-    if t[0] in ('neg', 'not'):
+    if t[0] in UNARY:
         return leaves(t[1])
     return leaves(t[2]) + leaves(t[3])
 
@@ -69,7 +80,7 @@ def nleaves(t):
 def size(t):
     if t[0] == 'leaf':
         return 1
-    if t[0] in ('neg', 'not'):
+    if t[0] in UNARY:
         return 1 + size(t[1])
     return 1 + size(t[2]) + size(t[3])
 
@@ -77,9 +88,19 @@ def size(t):
 def depth(t):
     if t[0] == 'leaf':
         return 0
-    if t[0] in ('neg', 'not'):
+    if t[0] in UNARY:
         return 1 + depth(t[1])
     return 1 + max(depth(t[2]), depth(t[3]))
+
+
+def has_eff(t):
+    if t[0] == 'leaf':
+        return False
+    if t[0] == 'eff':
+        return True
+    if t[0] in UNARY:
+        return has_eff(t[1])
+    return has_eff(t[2]) or has_eff(t[3])
 
 
 def is_bool_tree(t):
@@ -87,6 +108,8 @@ def is_bool_tree(t):
         return t[2] == 'b'
     if t[0] == 'not':
         return True
+    if t[0] == 'eff':
+        return is_bool_tree(t[1])
     if t[0] == 'bin':
         return t[1] in REL or t[1] in LOGIC
     return False
@@ -125,13 +148,15 @@ def tree_str(t, modes=None, _k=None):
         return '-(%s)' % tree_str(t[1], modes, k)
     if t[0] == 'not':
         return '~(%s)' % tree_str(t[1], modes, k)
+    if t[0] == 'eff':
+        return 'tick(%s)' % tree_str(t[1], modes, k)
     return '(%s %s %s)' % (tree_str(t[2], modes, k), t[1], tree_str(t[3], modes, k))
 
 
 def ops_of(t):
     if t[0] == 'leaf':
         return []
-    if t[0] in ('neg', 'not'):
+    if t[0] in UNARY:
         return [t[0]] + ops_of(t[1])
     return [t[1]] + ops_of(t[2]) + ops_of(t[3])
 
@@ -141,11 +166,11 @@ def op_pairs(t):
     out = []
     if t[0] == 'leaf':
         return out
-    kids = [t[1]] if t[0] in ('neg', 'not') else [t[2], t[3]]
-    me = t[0] if t[0] in ('neg', 'not') else t[1]
+    kids = [t[1]] if t[0] in UNARY else [t[2], t[3]]
+    me = t[0] if t[0] in UNARY else t[1]
     for c in kids:
         if c[0] != 'leaf':
-            out.append((me, c[0] if c[0] in ('neg', 'not') else c[1]))
+            out.append((me, c[0] if c[0] in UNARY else c[1]))
         out += op_pairs(c)
     return out
 
@@ -157,6 +182,8 @@ def possible_values(t):
     32-bit range has BOTH truth values as possible results (mathematical order / sign of the wrapped difference)."""
     if t[0] == 'leaf':
         return {t[1]}, 0
+    if t[0] == 'eff':
+        return possible_values(t[1])
     if t[0] == 'neg':
         s, n = possible_values(t[1])
         return {wrap(-a) for a in s}, n
@@ -201,7 +228,7 @@ def wraps_somewhere(t):
         return False
     if t[0] == 'neg':
         return wraps_somewhere(t[1]) or any(not in_int(-a) for a in possible_values(t[1])[0])
-    if t[0] == 'not':
+    if t[0] in ('not', 'eff'):
         return wraps_somewhere(t[1])
     if wraps_somewhere(t[2]) or wraps_somewhere(t[3]):
         return True
@@ -218,7 +245,7 @@ def excise(t, bits):
     taken from the iterator bits; nodes are visited bottom-up so that inner ones go first"""
     if t[0] == 'leaf':
         return t
-    if t[0] in ('neg', 'not'):
+    if t[0] in UNARY:
         return (t[0], excise(t[1], bits))
     l = excise(t[2], bits)
     r = excise(t[3], bits)
@@ -248,6 +275,9 @@ class Builder:
         self.decoy = (var_scope == 'decoy')
         if var_scope in ('shadow', 'decoy'):
             var_scope = 'local'
+        if ctx.startswith('arr/') and ctx.split('/')[3] == 'f':
+            self.shadow = False
+            var_scope = 'global'          # the index is evaluated inside the procedure that has the array formal
         self.var_scope = var_scope if ctx not in ('ret',) else 'global'
         self.var_init = var_init
         self.style = style
@@ -291,7 +321,9 @@ class Builder:
     def expr(self, t):
         if t[0] == 'leaf':
             return self.leaf_expr(t, self.modes[self.k])
-        if t[0] in ('neg', 'not'):
+        if t[0] == 'eff':
+            return ('call', 'tick', [self.expr(t[1])])
+        if t[0] in UNARY:
             return (t[0], self.expr(t[1]))
         l = self.expr(t[2])
         r = self.expr(t[3])
@@ -334,7 +366,63 @@ class Builder:
                           'locals': [('val', d[1], _num(wrap(11 * i + 1234567))) for i, d in enumerate(self.vals)] + [('var', 'w')],
                           'body': ('assign', 'w', ('var', self.vals[-1][1]))})
         body = self.init_stmts()
-        if ctx.startswith('callrep/'):
+        eff = has_eff(self.tree)
+        if eff:
+            gl.append(('var', 'cnt'))
+            procs.insert(0, {'kind': 'func', 'name': 'tick', 'formals': [('val', 'a')], 'locals': [],
+                             'body': ('seq', [('assign', 'cnt', ('bin', '+', ('var', 'cnt'), _num(1))), ('return', ('var', 'a'))])})
+            body = [('assign', 'cnt', _num(0))] + body
+        if ctx == 'exit' and eff:
+            ctx = 'assign'
+        if ctx.startswith('arr/'):
+            _, shape, rw, gf, t, kspell, jv = ctx.split('/')
+            t, jv = int(t), int(jv)
+            v = sorted(possible_values(self.tree)[0])[0]
+            kv = {'K-e': t + v, 'e-K': v - t, 'K+e': t - v, 'e+K': t - v, 'K-(e-J)': t + v - jv, '(K-e)+J': t - jv + v,
+                  'J+(e-K)': v + jv - t, '(e+J)-K': v + jv - t}[shape]
+            kv = wrap(kv)
+            is_ref = all(m[0] == 'v' for m in self.modes)
+            if is_ref:
+                gl += [('var', 'kk'), ('var', 'kj')]
+                body = [('assign', 'kk', _num(kv)), ('assign', 'kj', _num(jv))] + body
+                K, J = ('var', 'kk'), ('var', 'kj')
+            elif kspell == 'val':
+                gl.insert(0, ('val', 'kc', _num(kv)))
+                gl.insert(1, ('val', 'kd', _num(jv)))
+                K, J = ('var', 'kc'), ('var', 'kd')
+            else:
+                K, J = _num(kv), _num(jv)
+            idx = {'K-e': ('bin', '-', K, e), 'e-K': ('bin', '-', e, K), 'K+e': ('bin', '+', K, e), 'e+K': ('bin', '+', e, K),
+                   'K-(e-J)': ('bin', '-', K, ('bin', '-', e, J)), '(K-e)+J': ('bin', '+', ('bin', '-', K, e), J),
+                   'J+(e-K)': ('bin', '+', J, ('bin', '-', e, K)), '(e+J)-K': ('bin', '-', ('bin', '+', e, J), K)}[shape]
+            gl.append(('array', 't', _num(ARR_N)))
+            fill = [('assign', 'n', _num(0)),
+                    ('while', ('bin', '<', ('var', 'n'), _num(ARR_N)),
+                     ('seq', [('assignsub', 't', ('var', 'n'), ('bin', '+', ('var', 'n'), _num(100))),
+                              ('assign', 'n', ('bin', '+', ('var', 'n'), _num(1)))]))]
+            body = fill + body
+            if rw == 'r':
+                if gf == 'f':
+                    procs.append({'kind': 'func', 'name': 'rdf', 'formals': [('array', 'a')], 'locals': [], 'body': ('return', ('sub', 'a', idx))})
+                    body += [('assign', 'r', ('call', 'rdf', [('var', 't')]))]
+                else:
+                    body += [('assign', 'r', ('sub', 't', idx))]
+            else:
+                if gf == 'f':
+                    procs.append({'kind': 'proc', 'name': 'wrf', 'formals': [('array', 'a')], 'locals': [], 'body': ('assignsub', 'a', idx, _num(77))})
+                    body += [('call', 'wrf', [('var', 't')])]
+                else:
+                    body += [('assignsub', 't', idx, _num(77))]
+                body += [('assign', 'n', _num(0)), ('assign', 'r', _num(99)),
+                         ('while', ('bin', '<', ('var', 'n'), _num(ARR_N)),
+                          ('seq', [('if', ('bin', '=', ('sub', 't', ('var', 'n')), _num(77)), ('assign', 'r', ('var', 'n')), ('skip',)),
+                                   ('assign', 'n', ('bin', '+', ('var', 'n'), _num(1)))]))]
+            body += [('sys', 0, [('var', 'r')])]
+        elif ctx == 'ifv':
+            body += [('if', e, ('assign', 'r', _num(11)), ('assign', 'r', _num(22))), ('sys', 0, [('var', 'r')])]
+        elif ctx == 'whilev':
+            body += [('while', e, ('sys', 0, [_num(7)])), ('sys', 0, [_num(9)])]
+        elif ctx.startswith('callrep/'):
             # r := pick(K, .., idf(E), .., K): equal constants K around an actual that contains a call
             _, pattern, wrapcall, kval, kspell = ctx.split('/')
             kval = int(kval)
@@ -384,6 +472,8 @@ class Builder:
             body += [('assign', 'r', ('sub', 't', e)), ('sys', 0, [('var', 'r')])]
         else:
             raise ValueError(ctx)
+        if eff:
+            body = body[:-1] + [('sys', 1, [('bin', '+', ('var', 'cnt'), _num(48)), _num(0)])] + body[-1:]
         procs.append({'kind': 'proc', 'name': 'main', 'formals': [], 'locals': main_locals, 'body': ('seq', body)})
         return {'globals': gl, 'procs': procs, 'style': self.style}
 
@@ -398,6 +488,13 @@ def ref_modes(tree):
 
 def ctx_ok(tree, ctx):
     if ctx.startswith('callrep/'):
+        return True
+    if ctx.startswith('arr/'):
+        s, n = possible_values(tree)
+        return n == 0 and len(s) == 1
+    if ctx == 'whilev':
+        return not has_eff(tree)
+    if ctx == 'ifv':
         return True
     if ctx in ('ifc', 'whilec'):
         return is_bool_tree(tree)
@@ -430,7 +527,13 @@ class Gen:
         return leaf(self.rng.randrange(2), 'b')
 
     def tree(self, ty, d):
-        """random typed tree of depth <= d"""
+        """random typed tree of depth <= d; now and then a subtree goes through the counting function tick()"""
+        t = self.tree0(ty, d)
+        if self.rng.random() < 0.06:
+            return ('eff', t)
+        return t
+
+    def tree0(self, ty, d):
         r = self.rng
         if d <= 0 or r.random() < 0.18:
             return self.bool_leaf() if ty == 'b' else self.int_leaf()
@@ -558,10 +661,24 @@ class Gen:
         k = r.choice((0, 1, 5, -1, 65535, 65536, 70000, -65536, -70000, INT_MAX, INT_MIN, r.randrange(-300, 300)))
         return 'callrep/%s/%s/%d/%s' % (pattern, 'c' if r.random() < 0.75 else 'n', k, r.choice(('lit', 'val')))
 
+    def arr_context(self, shape=None):
+        r = self.rng
+        return 'arr/%s/%s/%s/%d/%s/%d' % (shape or r.choice(ARR_SHAPES), r.choice('rw'), r.choice('gf'), r.randrange(ARR_N),
+                                          r.choice(('lit', 'val')), r.choice((0, 1, 2, 3, 5, -1, -4, 70000, -65536)))
+
     def context(self, tree):
         r = self.rng
-        if r.random() < 0.10:
+        p = r.random()
+        if p < 0.08:
             return self.callrep_context()
+        if p < 0.18:
+            c = self.arr_context()
+            if ctx_ok(tree, c):
+                return c
+        elif p < 0.30:
+            c = r.choice(('ifv', 'ifv', 'whilev'))
+            if ctx_ok(tree, c):
+                return c
         for _ in range(8):
             c = r.choice(('assign', 'assign', 'exit', 'exit', 'ifc', 'whilec', 'actual', 'ret', 'sub'))
             if ctx_ok(tree, c):
@@ -607,6 +724,52 @@ def families(rng, budget):
         t = g.tree(rng.choice('ib'), rng.choice((3, 4)))
         if t[0] != 'leaf' and size(t) <= 40:
             out.append(('f3', t))
+    # F5: effectful operands next to a compile-time constant truth value, on either side of and/or, and inside
+    # relational operands
+    def effx():
+        k = rng.randrange(6)
+        a, b = g.value(), g.value()
+        if k == 0:
+            return ('eff', g.bool_leaf())
+        if k == 1:
+            return ('bin', rng.choice(REL), ('eff', leaf(a)), leaf(rng.choice((a, b))))
+        if k == 2:
+            return ('not', ('bin', rng.choice(REL), leaf(b), ('eff', leaf(a))))
+        if k == 3:
+            return ('bin', rng.choice(LOGIC), ('bin', '=', ('eff', leaf(a)), leaf(a)), g.bool_leaf())
+        if k == 4:
+            return ('bin', rng.choice(REL), ('bin', rng.choice(ARITH), ('eff', leaf(a % 1000)), leaf(b % 1000)), leaf(rng.choice((a, b)) % 1000))
+        return ('bin', '<', ('neg', ('eff', leaf(a % 1000))), leaf(b % 1000))
+
+    def constb():
+        k = rng.randrange(4)
+        if k == 0:
+            return g.bool_leaf()
+        if k == 1:
+            return ('bin', rng.choice(('<', '=', '~=', '>=')), leaf(rng.randrange(4)), leaf(rng.randrange(4)))
+        if k == 2:
+            return ('not', g.bool_leaf())
+        return ('bin', rng.choice(LOGIC), g.bool_leaf(), g.bool_leaf())
+    for _ in range(max(24, budget // 25)):
+        x, c = effx(), constb()
+        op = rng.choice(LOGIC)
+        out.append(('f5-eff', ('bin', op, x, c) if rng.random() < 0.6 else ('bin', op, c, x)))
+    for _ in range(max(8, budget // 100)):
+        out.append(('f5-eff', ('bin', rng.choice(REL), ('eff', g.int_leaf()), g.int_leaf())))
+    # F6: integer-valued conditions (values other than 0 and 1), F7: array index shapes -- both get their context in
+    # the caller (families named f6-cond / f7-index)
+    for _ in range(max(24, budget // 30)):
+        k = rng.randrange(5)
+        a, b = g.value(), g.value()
+        t = [leaf(a), ('bin', '-', leaf(a), leaf(b)), ('bin', '+', leaf(a), leaf(b)), ('neg', leaf(a)),
+             ('bin', '-', leaf(a), ('bin', '+', leaf(b), leaf(rng.randrange(-3, 4))))][k]
+        out.append(('f6-cond', t))
+    for shape in ARR_SHAPES:
+        for _ in range(max(3, budget // 250)):
+            k = rng.randrange(4)
+            a, b = rng.choice((g.value(), rng.randrange(-20, 20))), rng.randrange(-9, 10)
+            t = [leaf(a), ('bin', '+', leaf(a), leaf(b)), ('bin', '-', leaf(b), leaf(a)), ('neg', leaf(a))][k]
+            out.append(('f7-index/' + shape, t))
     # F4: sums and differences that wrap
     for _ in range(max(20, budget // 40)):
         out.append(('f4-wrap', g.wrap_tree()))
@@ -637,7 +800,7 @@ def subtrees_variants(t, modes):
         for v in sorted(vals):
             if (not isb) or v in (0, 1):
                 res.append((('leaf', v, 'b' if isb and v in (0, 1) else 'i'), [('c', 'dec') if anyc else ('v',)]))
-        if node[0] in ('neg', 'not'):
+        if node[0] in UNARY:
             if is_bool_tree(node[1]) == isb or not isb:
                 res.append((node[1], ms))
             for c, cm in rec(node[1], ms):
